@@ -218,16 +218,17 @@ def mk_conv(name, D, L, sgn, T, direction):
 opts_n = [160]
 
 
-def mk_mul(name, D, L, sgn, opn="mul", shape=None):
+def mk_mul(name, D, L, sgn, opn="mul", shape=None, mode="int"):
     """shape (division only): (significant limbs of the dividend, of the divisor) - restricts the operands to one
     size class so that the path-wise exploration of Knuth's algorithm D stays small"""
     n = limbs_of(D, L, sgn)
     lw = bits(L)
     W = n * lw
     o = {"mul": "*", "div": "/", "rem": "%"}[opn]
-    body = (PRE % (wt(D, L, sgn), n * lw // 8) + LOAD % ("a", n, "a", "a") + LOAD % ("b", n, "b", "b")
+    na, nb_ = (n, n) if shape is None else shape
+    body = (PRE % (wt(D, L, sgn), n * lw // 8) + LOAD % ("a", na, "a", "a") + LOAD % ("b", nb_, "b", "b")
             + "    auto r = cnl::_impl::from_rep<W>(ra) %s cnl::_impl::from_rep<W>(rb);\n    R rr = cnl::_impl::to_rep(r);\n" % o + STORE % n)
-    args = [Arg("a", L, "arr", n=n), Arg("b", L, "arr", n=n), Arg("out", L, "arr", n=n, out=True, init="uninit")]
+    args = [Arg("a", L, "arr", n=na), Arg("b", L, "arr", n=nb_), Arg("out", L, "arr", n=n, out=True, init="uninit")]
 
     def val(xs):
         v = 0
@@ -240,11 +241,9 @@ def mk_mul(name, D, L, sgn, opn="mul", shape=None):
             return True
         c = [X.ne(val(env.a["b"]), 0)]
         if shape is not None:
-            for nm, k_ in (("a", shape[0]), ("b", shape[1])):
-                xs = env.a[nm]
-                c.append(X.ne(xs[k_ - 1], 0))
-                for j in range(k_, n):
-                    c.append(X.eq(xs[j], 0))
+            # the limbs above the shape are concrete zeros in the kernel; the top listed limb is non-zero
+            c.append(X.ne(env.a["a"][shape[0] - 1], 0))
+            c.append(X.ne(env.a["b"][shape[1] - 1], 0))
         return X.And(*c)
 
     def claims(env, path):
@@ -281,9 +280,10 @@ def mk_mul(name, D, L, sgn, opn="mul", shape=None):
             seeds = []
             def mk(us, vs):
                 dct = {}
-                for i in range(n):
-                    dct["a_%d" % i] = us[i] if i < shape[0] else 0
-                    dct["b_%d" % i] = vs[i] if i < shape[1] else 0
+                for i in range(shape[0]):
+                    dct["a_%d" % i] = us[i]
+                for i in range(shape[1]):
+                    dct["b_%d" % i] = vs[i]
                 if dct["a_%d" % (shape[0] - 1)] == 0:
                     dct["a_%d" % (shape[0] - 1)] = 1
                 if dct["b_%d" % (shape[1] - 1)] == 0:
@@ -305,7 +305,8 @@ def mk_mul(name, D, L, sgn, opn="mul", shape=None):
                 vs = [rng.choice(S) if rng.random() < 0.7 else rng.randint(0, top) for _ in range(n)]
                 seeds.append(mk(us, vs))
             return seeds
-    return Kernel(name, args, "i32", body, mode="int", W=None, pre=pre, claims=claims, unwind=6 * n + 24, max_paths=40000, timeout=240 if shape is None else 40,
+    return Kernel(name, args, "i32", body, mode=mode, W=None if mode == "int" else (lw * (shape[0] + 1) + 8), pre=pre, claims=claims,
+                  unwind=6 * n + 24, max_paths=40000, timeout=240 if shape is None else 8,
                   guided_seeds=gs,
                   desc="wide_integer<%d,%s%s> %s (%d limbs)%s" % (D, "s" if sgn else "u", L[1:], o, n, (" operands with %d/%d significant limbs" % shape) if shape else ""),
                   tags={"op": opn, "D": D, "L": L, "sgn": sgn, "limbs": n})
@@ -331,6 +332,14 @@ def kernels(opts):
             ks.append(mk_conv("K%d" % len(ks), D, L, sgn, rng.choice(["i64", "u32", "u8", "u64"]), "to"))
             if limbs_of(D, L, sgn) <= (4 if tier == "quick" else 5):
                 ks.append(mk_mul("K%d" % len(ks), D, L, sgn, "mul"))
+            if L == "u8" and not sgn:
+                # 8-bit limbs make Knuth's rare branches (quotient-digit correction, add-back) common: trace-guided,
+                # operands restricted to a few significant limbs so that the oracle stays a 32..40-bit problem
+                ks.append(mk_mul("K%d" % len(ks), D, L, sgn, "div", shape=(4, 2), mode="int"))
+                ks.append(mk_mul("K%d" % len(ks), D, L, sgn, "div", shape=(5, 3), mode="int"))
+                if tier != "quick":
+                    ks.append(mk_mul("K%d" % len(ks), D, L, sgn, "rem", shape=(4, 2), mode="bv"))
+                    ks.append(mk_mul("K%d" % len(ks), D, L, sgn, "div", shape=(6, 2), mode="bv"))
             if limbs_of(D, L, sgn) <= 3 and not sgn:
                 # multi-limb divisors take Knuth's algorithm D (single-limb divisors use a separate short routine)
                 ks.append(mk_mul("K%d" % len(ks), D, L, sgn, "div", shape=(3, 2)))
